@@ -42,6 +42,7 @@ type thread struct {
 	commit     func()
 	arrival    int64
 	harness    bool
+	lastRun    int // scheduler step at which the thread was last woken (fair scheduling)
 	owners     func() []string // names of the threads currently holding what this op waits for
 }
 
@@ -67,6 +68,12 @@ type Sched struct {
 	// horizon) and starts draining; the harness should cancel contexts so that loops end.
 	OnAbort    func()
 	DrainSteps int
+	// FairAfter > 0: a thread that has been run for more than FairAfter consecutive steps while
+	// another thread could run is switched away from without consulting the explorer (fair
+	// scheduling of retry loops such as "load, see the old value, try again": the loop is only
+	// left when the other thread makes progress). Not counted as a preemption.
+	FairAfter int
+	streak    int
 	committing *thread
 	Trace    []string
 	KeepTrace bool
@@ -367,7 +374,18 @@ func (s *Sched) Run() Result {
 		n := len(enabled) + len(acts)
 		pick := 0
 		atomicStay := s.AtomicOps && runIdx >= 0 && enabled[0].kind != "yield" && enabled[0].kind != "start"
-		if n > 1 && !s.free && !atomicStay {
+		forced := false
+		if s.FairAfter > 0 && runIdx >= 0 && len(enabled) > 1 && s.streak > s.FairAfter && !s.free {
+			// the enabled thread that has not run for the longest time (two retry loops must not
+			// starve the thread they are both waiting for)
+			pick, forced = 1, true
+			for i := 1; i < len(enabled); i++ {
+				if enabled[i].lastRun < enabled[pick].lastRun {
+					pick = i
+				}
+			}
+		}
+		if n > 1 && !s.free && !atomicStay && !forced {
 			costs := make([]int, n)
 			if runIdx >= 0 {
 				for i := 1; i < n; i++ {
@@ -406,6 +424,12 @@ func (s *Sched) Run() Result {
 			s.committing = nil
 		}
 		th.parked = false
+		th.lastRun = s.Steps
+		if s.running == th {
+			s.streak++
+		} else if !forced {
+			s.streak = 0
+		}
 		s.running = th
 		if s.KeepTrace {
 			s.Trace = append(s.Trace, fmt.Sprintf("%s:%s(%s)", th.name, th.kind, th.obj))
